@@ -260,9 +260,30 @@ def plain_case(rng):
     return {'op': 'plain', 'name': name, 'a': a, 'b': np.abs(rand_coeffs(rng, (n, n), -1, 1)) + 0.5}
 
 
+PLAIN_ARGS = {
+    # calls with the further arguments of the NumPy function (positional and by keyword) on plain arrays
+    'transpose-axes': (lambda m, a: m.transpose(a, axes=(1, 0)), 'transpose'), 'transpose-axes-pos': (lambda m, a: m.transpose(a, (1, 0)), 'transpose'),
+    'reshape-order-F': (lambda m, a: m.reshape(a, (a.size,), 'F'), 'reshape'), 'reshape-order-kw': (lambda m, a: m.reshape(a, (a.size,), order='C'), 'reshape'),
+    'conjugate-out': (lambda m, a: m.conjugate(a + 1j * a, out=np.zeros(a.shape, dtype=complex)), 'conjugate'),
+    'diag-k': (lambda m, a: m.diag(a, k=1), 'diag'), 'triu-k': (lambda m, a: m.triu(a, k=-1), 'triu'), 'tril-k': (lambda m, a: m.tril(a, 1), 'tril'),
+    'trace-offset': (lambda m, a: m.trace(a, offset=0), 'trace'), 'tile-reps': (lambda m, a: m.tile(a, (2, 1)), 'tile'),
+    'sum-axis': (lambda m, a: m.sum(a, axis=0), 'sum'), 'exp-scalar': (lambda m, a: m.exp(a[0, 0]), 'exp'), 'sqrt-npscalar': (lambda m, a: m.sqrt(np.float64(a[0, 0])), 'sqrt'),
+}
+
+
 def plain_fails(case):
     name = case['name']
     a, b = np.array(case['a']), np.array(case['b'])
+    if name in PLAIN_ARGS:
+        f, fn = PLAIN_ARGS[name]
+        want = f(np, a)
+        try:
+            got = f(algopy, a)
+        except Exception as ex:
+            return 'plain-%s: algopy.%s on a plain array with the arguments NumPy accepts raised %s' % (name, fn, type(ex).__name__ + ':' + str(ex)[:80])
+        if isinstance(got, UTPM) or np.shape(got) != np.shape(want) or not np.array_equal(np.asarray(got), np.asarray(want)):
+            return 'plain-%s: algopy.%s on a plain array differs from the NumPy function of the same name' % (name, fn)
+        return None
     try:
         if name in PLAIN:
             got, want = getattr(algopy, name)(a), getattr(np, name)(a)
@@ -411,6 +432,16 @@ def run(ctx):
         ctx.evaluations += 1
         ctx.count('eig0=' + case['kind'])
         f = eig_fails(case)
+        if f:
+            ctx.report(case, 'failure', f)
+    for nm in sorted(PLAIN_ARGS):
+        case = plain_case(ctx.rng)
+        case['name'] = nm
+        if np.array(case['a']).shape[0] < 2:
+            case['a'] = np.abs(rand_coeffs(ctx.rng, (2, 3), -1, 1)) + 0.25
+        ctx.evaluations += 1
+        ctx.count('plain-args=' + nm)
+        f = plain_fails(case)
         if f:
             ctx.report(case, 'failure', f)
     for i in range(100 if ctx.tier == 'quick' else 1000):
